@@ -61,8 +61,21 @@ func sgn(x int) int {
 
 type cmpTable map[[3]int]cmpResult
 
+// c19Abort ends the run of C19 after a comparator or Sort turned out to be outside the interpreter's vocabulary:
+// that is reported as a violation of R-C19.0 (nothing is proved about code that cannot be interpreted), together
+// with whatever the structural rules had already found.
+type c19Abort struct{}
+
 func runC19(c *Ctx, r *Report) {
 	p := c.P
+	defer func() {
+		if e := recover(); e != nil {
+			if _, ok := e.(c19Abort); ok {
+				return
+			}
+			panic(e)
+		}
+	}()
 	r.Doc("R-C19.0", "every comparator is inside the interpreter's vocabulary under every sign triple (no undecided run)")
 	r.Doc("R-C19.1", "hash-tiebreak ordering is a strict total order on distinct entries: no error, non-zero on distinct hashes, zero on the identical entry, antisymmetric, transitive, and ordered by clock time first")
 	r.Doc("R-C19.2", "default ordering equals hash-tiebreak whenever (clock id, time) pairs differ; NoZeroes keeps the sign and errs exactly on ties")
@@ -71,6 +84,8 @@ func runC19(c *Ctx, r *Report) {
 	r.Doc("R-C19.5", "Sort's less is f<0 (f>0 when reversed) of the given comparator on (values[i], values[j]); errors map to false")
 	r.Doc("R-C19.6", "no comparator result depends on whether the integer subtraction of clock times overflowed or produced the most negative integer")
 	r.Doc("R-C19.7", "the comparators' nil guard is a nil guard: (*Entry).Defined depends on nothing but the entry existing")
+	r.Doc("R-C19.10", "the closures Sort hands to the sorting routine keep no state between comparisons: no variable that one comparison sets is tested by another (the sorted output would depend on which pairs were compared first)")
+	comparisonsAreStateless(c, r, "R-C19.10")
 	r.Doc("R-C19.9", "the orderings respect causality only for entries stamped above their predecessors with a clock of their own: Append takes the maximum over the heads exactly, adds one, and stores a fresh clock object (adopted from C04: a rounded maximum stamps a successor below its predecessor; a clock object shared with the log is re-stamped by the next Tick and the comparators change their answer for a stored entry)")
 	importRules(c, r, "C04", []string{"R-C04.1", "R-C04.2"}, "R-C19.9")
 	r.Doc("R-C19.8", "both sides of a comparison see the same numbers: the clock's getters return their field, its constructor and copy keep their arguments")
@@ -147,7 +162,8 @@ func runC19(c *Ctx, r *Report) {
 			defer func() {
 				if e := recover(); e != nil {
 					if u, ok := e.(cmpUndecided); ok {
-						infra("NoZeroes not interpretable: %s", u.msg)
+						r.Violate("R-C19.0", r.Key("R-C19.0", nil, "interpretable", "NoZeroes"), 0, "NoZeroes is outside the interpreter's vocabulary ("+u.msg+"): nothing is proved about the orderings built with it")
+						panic(c19Abort{})
 					}
 					panic(e)
 				}
@@ -167,7 +183,8 @@ func runC19(c *Ctx, r *Report) {
 			defer func() {
 				if e := recover(); e != nil {
 					if u, ok := e.(cmpUndecided); ok {
-						infra("Sort not interpretable: %s", u.msg)
+						r.Violate("R-C19.0", r.Key("R-C19.0", nil, "interpretable", "Sort"), 0, "Sort is outside the interpreter's vocabulary ("+u.msg+"): nothing is proved about the order of its output")
+						panic(c19Abort{})
 					}
 					panic(e)
 				}
